@@ -654,3 +654,33 @@ Definition on_new_headers (s : ids) (sid : N) : ids * hdr_outcome :=
 
 Definition on_stream_end (s : ids) (sid : N) : ids :=
   mkids (highest s) (last s) (filter (fun x => negb (x =? sid)) (open_ids s)) (maxc s) (draining s).
+
+(* ------------------------------------------------------------------ *)
+(** * Graceful shutdown ([Mux::shutting_down]) and the request in flight
+
+    Per stream: [terminated] = the request has been parsed to its end
+    (END_STREAM seen), [queued] = bytes of it not yet forwarded,
+    [eos] = [front_received_end_of_stream], which makes [handle_header_state]
+    answer any further DATA on the stream with GOAWAY(STREAM_CLOSED).
+    [require_terminated] = the condition as it is since fix 26165b4 ([true]);
+    [false] = the condition before it. *)
+Record upstream := mkup { terminated : bool; queued : N; eos : bool }.
+
+Inductive upev :=
+| UData (n : N) (end_stream : bool)   (* DATA from the client *)
+| UForward                             (* everything queued was forwarded to the backend *)
+| UShutdownPass.                       (* one pass of shutting_down while draining *)
+
+Inductive upres := UOk | UStreamClosedError.
+
+Definition upstep (require_terminated : bool) (s : upstream) (e : upev) : upstream * upres :=
+  match e with
+  | UData n es =>
+    if eos s then (s, UStreamClosedError)
+    else (mkup (terminated s || es) (queued s + n) (eos s || es), UOk)
+  | UForward => (mkup (terminated s) 0 (eos s), UOk)
+  | UShutdownPass =>
+    if (queued s =? 0) && (negb require_terminated || terminated s)
+    then (mkup (terminated s) (queued s) true, UOk)
+    else (s, UOk)
+  end.
